@@ -5,7 +5,11 @@ A PIN text is described by a small spec (the generator knows what it wrote):
     rows   protein count of every PSM row (0 = a line that lacks the protein field; validity only)
     dd     "none" | "short" (3 + nfeat fields, as in the Percolator wiki) | "full" (padded to header width)
     nl     trailing newline after the last line
-Fields are non-empty and contain no whitespace; every cell except Label identifies its row and column.
+    ws     optional: one character (a blank, or a character that str.splitlines / str.split() treat as a
+           separator although the tab-delimited format does not: \x0b \x0c \x1c-\x1e \x85 U+2028 U+2029)
+           placed INSIDE the SpecId field, the Peptide field and the first protein accession of every row -
+           never at the start or end of a line, so stripping a line cannot touch it
+Fields are non-empty and contain no tab / CR / LF; every cell except Label identifies its row and column.
 """
 
 from __future__ import annotations
@@ -24,10 +28,11 @@ def build(spec):
         if spec["dd"] == "full":
             dd += ["-"] * (len(header) - len(dd))
     rows = []
+    ws = spec.get("ws") or ""
     for i, nprot in enumerate(spec["rows"]):
-        fields = [f"t_{i}_77_2_-1", "1" if i % 2 == 0 else "-1", str(100 + i)]
-        fields += [f"{i}.{j}25" for j in range(nfeat)] + [f"K.PEPT{'I' * i}DE.R"]
-        rows.append((fields, [f"sp|Q{i}{k}|PR{k}_HUMAN" for k in range(nprot)]))
+        fields = [f"t_{i}{ws or '_'}77_2_-1", "1" if i % 2 == 0 else "-1", str(100 + i)]
+        fields += [f"{i}.{j}25" for j in range(nfeat)] + [f"K.PEPT{'I' * i}{ws}DE.R"]
+        rows.append((fields, [f"sp|Q{i}{k}|PR{k}{ws if k == 0 else ''}_HUMAN" for k in range(nprot)]))
     return header, dd, rows
 
 
